@@ -191,3 +191,108 @@ Lemma SingleArcSinhExp_domain h k : 0 < SingleArcSinhExp_points h k.
 Proof.
   unfold SingleArcSinhExp_points. cbv zeta. rewrite <- arcsinh_0. apply arcsinh_lt. apply exp_pos.
 Qed.
+
+(* ---------------------------------------------------------------- 5. substitution rules *)
+Lemma subst_pack (P W : R -> R) h n k :
+  h <> 0 -> (forall x, is_derive P x (W x)) -> (forall x, 0 < W x) ->
+  is_derive P (kidx n k) (W (kidx n k)) /\
+  is_derive (fun t => P (t / h)) (kidx n k * h) (W (kidx n k) / h) /\
+  0 < W (kidx n k) /\
+  (forall a b, a < b -> P a < P b) /\
+  P (kidx n k) < P (kidx n (S k)).
+Proof.
+  intros Hh Hd Hp. split; [apply Hd|]. split; [apply step_form; [exact Hh|apply Hd]|]. split; [apply Hp|].
+  assert (Hi : forall a b, a < b -> P a < P b) by (apply (incr_of_deriv P W Hd Hp)).
+  split; [exact Hi|apply Hi, kidx_lt].
+Qed.
+
+Lemma subst_TanhSinh_thm delta n k : 0 < delta ->
+  (is_derive (TanhSinh_points delta) (kidx n k) (wts_TanhSinh delta n k) /\
+   is_derive (fun t => TanhSinh_points delta (t / delta)) (kidx n k * delta) (wts_TanhSinh delta n k / delta) /\
+   0 < wts_TanhSinh delta n k /\
+   (forall a b, a < b -> TanhSinh_points delta a < TanhSinh_points delta b) /\
+   pts_TanhSinh delta n k < pts_TanhSinh delta n (S k)) /\
+  -1 < pts_TanhSinh delta n k < 1.
+Proof.
+  intros H. split; [|apply TanhSinh_domain].
+  apply (subst_pack (TanhSinh_points delta) (TanhSinh_weights delta)); [lra|apply TanhSinh_deriv|intros; apply TanhSinh_wpos; exact H].
+Qed.
+
+Lemma subst_ExpSinh_thm h n k : 0 < h ->
+  (is_derive (ExpSinh_points h) (kidx n k) (wts_ExpSinh h n k) /\
+   is_derive (fun t => ExpSinh_points h (t / h)) (kidx n k * h) (wts_ExpSinh h n k / h) /\
+   0 < wts_ExpSinh h n k /\
+   (forall a b, a < b -> ExpSinh_points h a < ExpSinh_points h b) /\
+   pts_ExpSinh h n k < pts_ExpSinh h n (S k)) /\
+  0 < pts_ExpSinh h n k.
+Proof.
+  intros H. split; [|apply ExpSinh_domain].
+  apply (subst_pack (ExpSinh_points h) (ExpSinh_weights h)); [lra|apply ExpSinh_deriv|intros; apply ExpSinh_wpos; exact H].
+Qed.
+
+Lemma subst_LogExpSinh_thm h n k : 0 < h ->
+  (is_derive (LogExpSinh_points h) (kidx n k) (wts_LogExpSinh h n k) /\
+   is_derive (fun t => LogExpSinh_points h (t / h)) (kidx n k * h) (wts_LogExpSinh h n k / h) /\
+   0 < wts_LogExpSinh h n k /\
+   (forall a b, a < b -> LogExpSinh_points h a < LogExpSinh_points h b) /\
+   pts_LogExpSinh h n k < pts_LogExpSinh h n (S k)) /\
+  0 < pts_LogExpSinh h n k.
+Proof.
+  intros H. split; [|apply LogExpSinh_domain].
+  apply (subst_pack (LogExpSinh_points h) (LogExpSinh_weights h)); [lra|apply LogExpSinh_deriv|intros; apply LogExpSinh_wpos; exact H].
+Qed.
+
+Lemma subst_ExpExp_thm h n k : 0 < h ->
+  (is_derive (ExpExp_points h) (kidx n k) (wts_ExpExp h n k) /\
+   is_derive (fun t => ExpExp_points h (t / h)) (kidx n k * h) (wts_ExpExp h n k / h) /\
+   0 < wts_ExpExp h n k /\
+   (forall a b, a < b -> ExpExp_points h a < ExpExp_points h b) /\
+   pts_ExpExp h n k < pts_ExpExp h n (S k)) /\
+  0 < pts_ExpExp h n k.
+Proof.
+  intros H. split; [|apply ExpExp_domain].
+  apply (subst_pack (ExpExp_points h) (ExpExp_weights h)); [lra|apply ExpExp_deriv|intros; apply ExpExp_wpos; exact H].
+Qed.
+
+Lemma subst_SingleTanh_thm h n k : 0 < h ->
+  (is_derive (SingleTanh_points h) (kidx n k) (wts_SingleTanh h n k) /\
+   is_derive (fun t => SingleTanh_points h (t / h)) (kidx n k * h) (wts_SingleTanh h n k / h) /\
+   0 < wts_SingleTanh h n k /\
+   (forall a b, a < b -> SingleTanh_points h a < SingleTanh_points h b) /\
+   pts_SingleTanh h n k < pts_SingleTanh h n (S k)) /\
+  -1 < pts_SingleTanh h n k < 1.
+Proof.
+  intros H. split; [|apply SingleTanh_domain].
+  apply (subst_pack (SingleTanh_points h) (SingleTanh_weights h)); [lra|apply SingleTanh_deriv|intros; apply SingleTanh_wpos; exact H].
+Qed.
+
+Lemma subst_SingleExp_thm h n k : 0 < h ->
+  (is_derive (SingleExp_points h) (kidx n k) (wts_SingleExp h n k) /\
+   is_derive (fun t => SingleExp_points h (t / h)) (kidx n k * h) (wts_SingleExp h n k / h) /\
+   0 < wts_SingleExp h n k /\
+   (forall a b, a < b -> SingleExp_points h a < SingleExp_points h b) /\
+   pts_SingleExp h n k < pts_SingleExp h n (S k)) /\
+  0 < pts_SingleExp h n k.
+Proof.
+  intros H. split; [|apply SingleExp_domain].
+  apply (subst_pack (SingleExp_points h) (SingleExp_weights h)); [lra|apply SingleExp_deriv|intros; apply SingleExp_wpos; exact H].
+Qed.
+
+Lemma subst_SingleArcSinhExp_thm h n k : 0 < h ->
+  (is_derive (SingleArcSinhExp_points h) (kidx n k) (wts_SingleArcSinhExp h n k) /\
+   is_derive (fun t => SingleArcSinhExp_points h (t / h)) (kidx n k * h) (wts_SingleArcSinhExp h n k / h) /\
+   0 < wts_SingleArcSinhExp h n k /\
+   (forall a b, a < b -> SingleArcSinhExp_points h a < SingleArcSinhExp_points h b) /\
+   pts_SingleArcSinhExp h n k < pts_SingleArcSinhExp h n (S k)) /\
+  0 < pts_SingleArcSinhExp h n k.
+Proof.
+  intros H. split; [|apply SingleArcSinhExp_domain].
+  apply (subst_pack (SingleArcSinhExp_points h) (SingleArcSinhExp_weights h));
+    [lra|apply SingleArcSinhExp_deriv|intros; apply SingleArcSinhExp_wpos; exact H].
+Qed.
+
+(* index array: n consecutive integers, symmetric about 0 for odd n *)
+Lemma subst_index_thm n k :
+  kidx n (S k) = kidx n k + 1 /\ kidx n 0 = - INR ((n - 1) / 2) /\ (Nat.odd n = true -> kidx n (n - 1) = INR ((n - 1) / 2)).
+Proof. split; [apply kidx_S|split; [apply kidx_first|apply kidx_last]]. Qed.
+
